@@ -114,7 +114,7 @@ class BfsResult:
             if f["edges_list_hashes"].shape == tuple():
                 edges_list_hashes = None
             else:
-                edges_list_hashes = f["edges_list_hashes"][()]
+                edges_list_hashes = torch.as_tensor(f["edges_list_hashes"][()])
 
             layers_keys = {}
             for k in f.keys():
@@ -125,7 +125,7 @@ class BfsResult:
             loaded_result = BfsResult(
                 bfs_completed=bool(f["bfs_completed"][()]),
                 layer_sizes=layer_sizes,
-                layers={k: f[layer_key][()] for k, layer_key in layers_keys.items()},
+                layers={k: torch.as_tensor(f[layer_key][()]) for k, layer_key in layers_keys.items()},
                 edges_list_hashes=edges_list_hashes,
                 layers_hashes=layers_hashes,
                 graph=CayleyGraphDef.create(
